@@ -102,3 +102,30 @@ def accept(tool, trace):
     ev = events(tool, trace)
     r = pvlib.run_lines(pvlib.PVDRIVER, [f"wrapper.accept {ef} {pf} " + " ".join(ev)], timeout=300)[0]
     return r, ev
+
+
+def paced_corpus(tool):
+    """(stdin bytes, byte offsets at which the producer stalls) that let the wrapper's output thread catch up with its
+    input thread exactly at, just before and just after the multiples of the queue page size (1023 entries,
+    util/pcqueue.hh).  The output thread can only be fully caught up when everything sent so far has reached the child:
+    cache flushes at every 4096th new line (so: 4096 distinct lines, then repeats only); foldfilter and b64filter write
+    records longer than the 8 KiB stream buffer straight through (so: a long record at the boundary)."""
+    import base64
+    if tool == "cache":
+        lines = [b"row %d" % i for i in range(4096)] + [b"row %d" % ((i * 7) % 4096) for i in range(2300)]
+        marks = sorted(set([1023 * k + d for k in range(1, 7) for d in (-1, 0, 1)] + [4095, 4096, 4097]))
+        recs = [l + b"\n" for l in lines]
+    else:
+        recs = []
+        for i in range(2100):
+            body = (b"word%d " % i) * (1500 if (i + 1) % 1023 in (0, 1, 1022) else 3)
+            if tool == "b64filter":
+                recs.append(base64.b64encode(body + b"\nsecond line\n") + b"\n")
+            else:
+                recs.append(body.rstrip() + b"\n")
+        marks = sorted(set(1023 * k + d for k in (1, 2) for d in (-1, 0, 1)))
+    offs, o = [], 0
+    for r in recs:
+        o += len(r)
+        offs.append(o)
+    return b"".join(recs), [offs[k - 1] for k in marks if 0 < k <= len(offs)]
